@@ -202,7 +202,7 @@ func runC08(c *Ctx) {
 	}
 
 	// ---------------------------------------------------------------- R4
-	c.rule("R4", "dead connections leave the pools when detected / when they close", 3)
+	c.rule("R4", "dead connections leave the pools when detected / when they close", 4)
 	if g := c.fn(relTransport, "PipelineTransport", "getReservedExchanger"); g != nil {
 		good := false
 		eachInstr(g, func(in ssa.Instruction) {
@@ -224,6 +224,30 @@ func runC08(c *Ctx) {
 			}
 		})
 		c.check(good, "drop-closed@"+funcName(g), g.Pos(), "a connection reporting closed is deleted from conns", "connections that report 'closed' stay in the pool: every later query wastes its attempts on them")
+	}
+	if f := c.fn(relTransport, "TraditionalDnsConn", "CloseWithErr"); f != nil {
+		// the fast-check flag must be set before waiters are woken: a woken caller retries at once and must not
+		// be able to reserve on this connection again
+		good := false
+		eachInstrDeep(f, func(g *ssa.Function, in ssa.Instruction) {
+			ci, ok := isCall(in, "builtin:close")
+			if !ok {
+				return
+			}
+			if k, _ := loadedField(ci.Common().Args[0]); k != T+"TraditionalDnsConn.closeNotify" {
+				return
+			}
+			eachInstr(g, func(x ssa.Instruction) {
+				if st, ok := x.(*ssa.Call); ok && callName(st) == "(*sync/atomic.Bool).Store" && instrDominates(x, in) {
+					if k, _ := fieldKey(st.Call.Args[0]); k == T+"TraditionalDnsConn.closed" {
+						if b, ok := constBool(st.Call.Args[1]); ok && b {
+							good = true
+						}
+					}
+				}
+			})
+		})
+		c.check(good, "closed-flag-before-notify", f.Pos(), "closed is set before closeNotify is closed", "the closed flag is set after the waiters were woken: a woken caller's retries reserve the same dying connection again and the query fails without a fresh connection being tried")
 	}
 	if f := c.fn(relTransport, "reusableConn", "closeWithErr"); f != nil {
 		del := map[string]bool{}
